@@ -2933,12 +2933,16 @@ package goatlang
 //@ func (*VM).Eval loop 0
 //@   invariant v != nil && wfL(v.globals)
 //@ func (*VM).Load
-//@   property C03
+//@   property C03 C17 C15
 //@   requires v != nil && wfL(v.globals)
 //@   modifies *
 //@   nopanic
+//@   -- a successful Load has compiled and run what it loaded, every time (reloading the same
+//@   -- source again re-initialises it)
+//@   ensures#runs @C17 @C15 isnil(result) ==> calls("compilePkgs") == 1 && calls("(*VM).run") == 1
 //@ func (*VM).Load loop 0
 //@   invariant v != nil && wfL(v.globals)
+//@   invariant#nocalls @C17 @C15 calls("compilePkgs") == 0 && calls("(*VM).run") == 0
 
 // ---------------------------------------------------------------------------------------------
 // C19: the NewFunc adapters. Each wrapper takes the top argc stack values as the native's
@@ -3065,10 +3069,11 @@ package goatlang
 //@   modifies *
 //@ -- every expression parsed as the right-hand side of a declaration goes through assignResize
 //@ func getDecl
-//@   property C07 C09
+//@   property C07 C09 C15
 //@   requires p != nil
 //@   modifies *
 //@   ensures#resized calls("(*parser).Expression") == calls("assignResize")
+//@   ensures#nonnil @C15 old(p.Token.Symbol) != ";" ==> result != nil
 //@   callsite#operands assignResize: arg_left == left
 //@ func getDecl loop 0
 //@   invariant p != nil && decl != nil && left != nil
@@ -3130,6 +3135,20 @@ package goatlang
 //@   axioms TOKARR
 //@   requires wfC(c) && tok != nil && len(tok.Tokens) >= 3 && tokArr(arr(tok.Tokens)) && (forall j int :: 0 <= j && j < len(tok.Tokens) ==> tok.Tokens[j] != nil)
 //@   callsite#builtinwins (*compiler).compile: builtinMap[tok.Tokens[0].Text] == 0
+//@ -- an init function is called where it is declared, every time its package is compiled
+//@ func (*compiler).compile case "init"
+//@   property C15
+//@   axioms TOKARR
+//@   requires wfC(c) && tok != nil && len(tok.Tokens) >= 1 && tokArr(arr(tok.Tokens)) && (forall j int :: 0 <= j && j < len(tok.Tokens) ==> tok.Tokens[j] != nil)
+//@   ensures#called len(res) >= 1 && res[len(res)-1].Code == codeCall
+//@ -- a declaration that is parsed is handed on (also one that only names `_`: its initialiser runs)
+//@ func declareNud
+//@   property C15
+//@   requires p != nil && t != nil && p.Token != nil
+//@   modifies *
+//@   ensures#single old(p.Token.Symbol) != "(" && old(p.Token.Symbol) != ";" ==> result != nil && calls("getDecl") == 1
+//@ func declareNud loop 0
+//@   invariant p != nil && t != nil && block != nil
 //@ -- integer and character literals are untyped constants: PUSH of the literal's value (a typed
 //@ -- constant would stop taking the type of the other operand)
 //@ func (*compiler).compile case "(char)"
